@@ -30,20 +30,27 @@ FN_R = 'mc.checks.c11_schedules:real_case'
 KINDS = ('forward', 'gradient', 'jvec')
 
 
-def problem(nsrc, nfreq):
-    """Small survey: nsrc sources x nfreq frequencies, E and H receivers."""
+def problem(nsrc, nfreq, variant='same'):
+    """Small survey: nsrc sources x nfreq frequencies, E and H receivers.
+    variant 'laplace-mu': Laplace-domain 'frequencies' (negative values) and
+    a model with heterogeneous mu_r (forward runs only)."""
     import emg3d
     h = [np.array([120., 90, 100, 130])*s for s in (1.0, 1.1, 0.9)]
     grid = emg3d.TensorMesh(h, origin=(-220., -230., -390.))
     r = zoo.rng('c11', 'model')
+    mkw = {}
+    if variant == 'laplace-mu':
+        mkw['mu_r'] = r.uniform(0.6, 2.5, grid.shape_cells)
     model = emg3d.Model(grid, 10**r.uniform(-1, 0.5, grid.shape_cells),
-                        mapping='Conductivity')
+                        mapping='Conductivity', **mkw)
     srcs = [emg3d.TxElectricDipole((-60. + 35*i, 20. - 30*i, -200. + 10*i,
                                     30.*i, 10.*i)) for i in range(nsrc)]
     recs = [emg3d.RxElectricPoint((60., -40., -150., 20., 5.)),
             emg3d.RxMagneticPoint((40., 50., -180., -40., 10.)),
             emg3d.RxElectricPoint((-20., 60., -120., 90., 0.))]
     freqs = [1.0, 2.5, 0.4][:nfreq]
+    if variant == 'laplace-mu':
+        freqs = [-f for f in freqs]
     survey = emg3d.Survey(sources=emg3d.surveys.txrx_lists_to_dict(srcs),
                           receivers=emg3d.surveys.txrx_lists_to_dict(recs),
                           frequencies=freqs, noise_floor=1e-15,
@@ -68,7 +75,7 @@ def run_once(nsrc, nfreq, kind, max_workers, file_dir=None, tqdm=True,
     """One complete run of the real Simulation code.  Returns observations
     (and the scheduler if a virtual pool was used)."""
     import emg3d
-    survey, model = problem(nsrc, nfreq)
+    survey, model = problem(nsrc, nfreq, variant)
     obs = {}
     vec = zoo.rng('c11', 'vec').standard_normal(model.shape)
 
@@ -104,6 +111,11 @@ def run_once(nsrc, nfreq, kind, max_workers, file_dir=None, tqdm=True,
             obs['efields'] = [np.array(sim.get_efield(s, f).field)
                               for s, f in sim._srcfreq]
             obs['synthetic'] = np.array(sim.data.synthetic.data)
+            if variant == 'laplace-mu':
+                obs['hfields'] = [np.array(sim.get_hfield(s, f).field)
+                                  for s, f in sim._srcfreq]
+                obs['hfields2'] = [np.array(sim.get_hfield(s, f).field)
+                                   for s, f in sim._srcfreq]
             if kind in ('gradient', 'jvec'):
                 obs['misfit'] = float(sim.misfit)
             if kind == 'gradient':
@@ -350,6 +362,12 @@ def run(ctx):
             for k in ((2, 3) if q else (2, 3, 4, 16)):
                 cs.append({'nsrc': 1, 'nfreq': 3, 'kind': kind, 'k': k,
                            'file': file_, 'tqdm': True, 'variant': 'dict'})
+    # Laplace domain + heterogeneous mu_r + magnetic receivers (forward)
+    for file_ in (False, True):
+        for k in ((1, 2) if q else (1, 2, 4)):
+            cs.append({'nsrc': 2, 'nfreq': 2, 'kind': 'forward', 'k': k,
+                       'file': file_, 'tqdm': not file_,
+                       'variant': 'laplace-mu'})
     # most expensive first for load balance
     cs.sort(key=lambda c: -min(c['k'], nsrc*nfreq))
     ctx.explore('all-orders-of-one-call', FN, cs, engine='E3',
